@@ -392,6 +392,22 @@ func (fe *FnEnc) run(args []Val) {
 		}
 		if li != nil {
 			spec := fe.loopSpec(li)
+			// implicit invariant of range-over-slice loops: -1 <= rangeindex < len
+			for _, in := range ins {
+				if in.isBack {
+					continue
+				}
+				over := map[*ssa.Phi]Val{}
+				for _, p := range phis {
+					over[p] = fe.val(p.Edges[in.predIdx])
+				}
+				if ri := fe.rangeIndexInv(b, over); ri != "" {
+					saveG := fe.guard
+					fe.guard = in.guard
+					fe.check(fmt.Sprintf("loop%d.init", li.ordinal), fe.siteLabel("rangeindex"), ri, "-1 <= rangeindex < len (implicit)", b.Instrs[0].Pos())
+					fe.guard = saveG
+				}
+			}
 			// loop.init on each entry edge
 			if spec != nil {
 				for _, in := range ins {
@@ -416,6 +432,9 @@ func (fe *FnEnc) run(args []Val) {
 			fe.havocLoop(li, lk)
 			for _, p := range phis {
 				fe.vals[p] = fe.freshVal("lp_"+mangle(p.Comment), p.Type())
+			}
+			if ri := fe.rangeIndexInv(b, nil); ri != "" {
+				fe.s.assert(implies(fe.guard, ri))
 			}
 			if spec != nil {
 				for _, inv := range spec.Invariants {
@@ -465,6 +484,44 @@ func (fe *FnEnc) run(args []Val) {
 			}
 			hli := fe.loops[sc]
 			spec := fe.loopSpec(hli)
+			{
+				pi0 := -1
+				cnt0, want0 := 0, 0
+				for j := 0; j < si; j++ {
+					if b.Succs[j] == sc {
+						want0++
+					}
+				}
+				for j, p := range sc.Preds {
+					if p == b {
+						if cnt0 == want0 {
+							pi0 = j
+							break
+						}
+						cnt0++
+					}
+				}
+				over0 := map[*ssa.Phi]Val{}
+				for _, ins := range sc.Instrs {
+					if p, ok := ins.(*ssa.Phi); ok && pi0 >= 0 {
+						over0[p] = fe.val(p.Edges[pi0])
+					}
+				}
+				if ri := fe.rangeIndexInv(sc, over0); ri != "" {
+					saveG := fe.guard
+					fe.guard = and(fe.guard, edgeCond[e])
+					fe.check(fmt.Sprintf("loop%d.preserve", hli.ordinal), fe.siteLabel("rangeindex"), ri, "-1 <= rangeindex < len (implicit)", sc.Instrs[0].Pos())
+					fe.guard = saveG
+				}
+				if spec == nil {
+					if fr := fe.loopFrameGoal(hli); fr != "" {
+						saveG := fe.guard
+						fe.guard = and(fe.guard, edgeCond[e])
+						fe.check(fmt.Sprintf("loop%d.frame", hli.ordinal), fe.siteLabel(""), fr, "objects the loop does not write are unchanged", sc.Instrs[0].Pos())
+						fe.guard = saveG
+					}
+				}
+			}
 			if spec == nil {
 				continue
 			}
@@ -536,7 +593,7 @@ func (fe *FnEnc) havocLoop(li *loopInfo, lk string) {
 		}
 		stable := true
 		for r := range refs {
-			if !strings.HasPrefix(r, "p_") || !isAtom(r) {
+			if !(strings.HasPrefix(r, "p_") || strings.HasPrefix(r, "new_")) || !isAtom(r) {
 				stable = false
 			}
 		}
@@ -549,7 +606,21 @@ func (fe *FnEnc) havocLoop(li *loopInfo, lk string) {
 			}
 		}
 		li.preHeap[k] = fe.s.heapGet(fe.mem, k)
-		li.frameRefs[k] = sortedKeys(refs)
+		var rs []string
+		fresh := false
+		for _, r := range sortedKeys(refs) {
+			if strings.HasPrefix(r, "new_") {
+				fresh = true
+			} else {
+				rs = append(rs, r)
+			}
+		}
+		if fresh {
+			// objects allocated during this call: everything at or above the entry watermark
+			nk := fe.s.heapOwner[k]
+			rs = append(rs, "@fresh:"+fe.s.ghostGet(fe.top.entryMem, nk, "Int"))
+		}
+		li.frameRefs[k] = rs
 	}
 	fe.havocKeys(keys)
 	for _, k := range sortedKeys(li.preHeap) {
@@ -560,6 +631,10 @@ func (fe *FnEnc) havocLoop(li *loopInfo, lk string) {
 func frameFormula(cur, pre string, refs []string) string {
 	var conds []string
 	for _, r := range refs {
+		if strings.HasPrefix(r, "@fresh:") {
+			conds = append(conds, "(< fr "+strings.TrimPrefix(r, "@fresh:")+")")
+			continue
+		}
 		conds = append(conds, "(not (= fr "+r+"))")
 	}
 	return "(forall ((fr Int)) (! (=> " + and(conds...) + " (= (select " + cur + " fr) (select " + pre + " fr))) :pattern ((select " + cur + " fr))))"
@@ -1031,4 +1106,59 @@ func (fe *FnEnc) mergeMems(gs []string, ms []*Mem) *Mem {
 		}
 	}
 	return out
+}
+
+// rangeIndexInv recognises the SSA shape of `for i := range slice`
+// (phi #rangeindex from -1, t = phi + 1, if t < L) and returns the implicit
+// invariant -1 <= rangeindex < L ("" if the header has no such phi).
+func (fe *FnEnc) rangeIndexInv(h *ssa.BasicBlock, over map[*ssa.Phi]Val) string {
+	if fe.s.mode != "int" || (fe.top.ct != nil && fe.top.ct.Panics == "off") {
+		return ""
+	}
+	for _, ins := range h.Instrs {
+		p, ok := ins.(*ssa.Phi)
+		if !ok {
+			break
+		}
+		if p.Comment != "rangeindex" {
+			continue
+		}
+		// find t = p + 1 and If (t < L)
+		var inc *ssa.BinOp
+		for _, ins2 := range h.Instrs {
+			if bo, ok := ins2.(*ssa.BinOp); ok && bo.Op == token.ADD && bo.X == p {
+				inc = bo
+			}
+		}
+		if inc == nil {
+			return ""
+		}
+		ifi, ok := h.Instrs[len(h.Instrs)-1].(*ssa.If)
+		if !ok {
+			return ""
+		}
+		cmp, ok := ifi.Cond.(*ssa.BinOp)
+		if !ok || cmp.Op != token.LSS || cmp.X != inc {
+			return ""
+		}
+		lv, ok := fe.vals[cmp.Y]
+		if !ok {
+			if _, isC := cmp.Y.(*ssa.Const); isC {
+				lv = fe.val(cmp.Y)
+			} else {
+				return ""
+			}
+		}
+		pv := fe.vals[p]
+		if over != nil {
+			if v, ok := over[p]; ok {
+				pv = v
+			}
+		}
+		if pv.Term == "" || lv.Term == "" {
+			return ""
+		}
+		return "(and (<= (- 1) " + pv.Term + ") (< " + pv.Term + " " + lv.Term + ") (<= 0 " + lv.Term + "))"
+	}
+	return ""
 }
